@@ -249,6 +249,75 @@ pub fn full_walk_cases(r: &mut Rng, n: usize, n_prep: usize, sink: &mut Sink) {
     }
 }
 
+/// The simulation of a dispatched train: the real `walk_timed_path(network, timed_path)` (piecewise path supply,
+/// stepping until the time of the last supplied link, final walk) against `sl_timed_walk` (WholeSim.v), fed with the
+/// network, the train parameters and the timed link path only.
+fn timed_walk_cases(r: &mut Rng, n: usize, sink: &mut Sink) {
+    use crate::c12::sl_opts;
+    use crate::train::*;
+    use altrios_core::train::LinkIdxTime;
+    let mut t = 0usize; let mut made = 0usize;
+    while made < n && t < 30 * n + 30 {
+        let mut rr = r.fork();
+        let mut o = sl_opts(&mut rr, t); o.schedule = 0; o.default_consist = t % 4 != 3; o.max_total = 12000.0;
+        o.size = [0, 1, 0][t % 3]; o.clean_start = true; o.profile = [0, 1, 0, 2][t % 4]; o.ramp_up_time = None;
+        // piecewise supply needs a first piece that holds the train: long links
+        if (t + 1) % 3 != 0 { o.profile = 2; o.max_total = 30000.0; }
+        t += 1;
+        let (train, route, made_sim) = sl_make(&mut rr, &o);
+        let mut sim = match made_sim { Ok(s) => s, Err(_) => continue };
+        if !is_strap(&sim.train_res) || has_hybrid(&sim.loco_con) || route.path.len() < 2 { continue; }
+        sim.set_save_interval(None);
+        let tp = match builder(&train, None, true).train_config.make_train_params() { Ok(p) => p, Err(_) => continue };
+        let rp = res_params(&sim.train_res);
+        let fmax = match sim.loco_con.force_max() { Ok(f) => f.value, Err(_) => continue };
+        // times: links become available in bursts (several due at once) or late (the train waits at the end of what it has)
+        let mode = t % 3;
+        let mut tt = sim.state.time.value; let mut timed = vec![];
+        for (i, l) in route.path.iter().enumerate() {
+            timed.push(LinkIdxTime::new(*l, altrios_core::uc::S * tt));
+            let len = route.network[l.idx()].length.value;
+            tt += match mode { 0 => 0.0, 1 => (len / 12.0).round() + if i % 3 == 2 { 120.0 } else { 0.0 }, _ => if i % 2 == 0 { 0.0 } else { (len / 6.0).round() + 30.0 } };
+        }
+        let (pre, pre_cache, pre_fb, pre_con) = (sim.state, res_cache(&sim.train_res), fb_of(&sim), sim.loco_con.clone());
+        let net = route.network.clone(); let tl = timed.clone();
+        let (tx, rx) = std::sync::mpsc::channel();
+        let mut c = sim.clone();
+        std::thread::spawn(move || {
+            let res = std::panic::catch_unwind(std::panic::AssertUnwindSafe(|| c.walk_timed_path(&net, &tl)));
+            let _ = tx.send((c, match res { Ok(Ok(())) => Ok(()), Ok(Err(e)) => Err(train_err_code(&e)), Err(_) => Err((-1, "panic".to_string())) }));
+        });
+        let (post, res) = match rx.recv_timeout(std::time::Duration::from_secs(20)) { Ok(x) => x, Err(_) => continue };
+        let steps = post.state.i.saturating_sub(pre.i);
+        if steps > 5000 { continue; }
+        let mut tags = route.tags.clone(); tags.extend(train.tags.clone());
+        tags.push("sim:speed_limit".into()); tags.push(format!("timed_path:{}", ["all_links_due_at_once", "links_released_at_running_pace", "links_released_late_in_pairs"][mode]));
+        tags.push(format!("walk_steps:{}", bucket(steps / 100))); tags.push(format!("path_links:{}", bucket(route.path.len())));
+        let mut fails = vec![];
+        let outcome = match &res {
+            Ok(()) => {
+                tags.push("result:ok".into());
+                oracle_levels(&post.state, &post.loco_con, &mut fails);
+                let end = post.path_tpc.offset_end().value; let (x, v) = (post.state.offset.value, post.state.speed.value);
+                if !(x >= end - 1000.0 * 0.3048 && (x >= end || v == 0.0)) { fails.push(format!("walk_timed_path returned Ok at offset {} with speed {} although the supplied path ends at {}", x, v, end)); }
+                let p = Post { st: post.state, cache: res_cache(&post.train_res), fb: Some(fb_of(&post)), idx: braking_idx(&post) };
+                let mut oo = outs_post(&p); oo.extend(outs_consist(&post.loco_con)); Outcome::Ok(oo)
+            }
+            Err((-1, m)) => { tags.push("result:panic".into()); Outcome::Panic(m.clone()) }
+            Err((998, m)) => { let (c, _) = consist_err_code(&anyhow::anyhow!("{}", m)); tags.push(format!("result:err{}", c)); Outcome::Err(c, m.clone()) }
+            Err((c, m)) => { tags.push(format!("result:err{}", c)); Outcome::Err(*c, m.clone()) }
+        };
+        let in_domain = !post.loco_con.loco_vec.iter().any(|l| l.state.pwr_out_max.value < 0.0);
+        let tl_coq = format!("[{}]", timed.iter().map(|x| format!("({}, {})", cz(x.link_idx.idx() as i64), cf(x.time.value))).collect::<Vec<_>>().join("; "));
+        let coq = format!("x_sl_timed_walk 200000%N {}%N {} {} {} {} {} {} {} {} {}", steps + 10, crate::trk::coq_net(&route.network), crate::trk::coq_tp(&tp), tl_coq,
+            coq_rp(&rp), cf(fmax), coq_fb(&pre_fb), coq_tstate(&pre), coq_cache(&pre_cache), coq_consist(&pre_con));
+        sink.put(Case { id: format!("sl_timed_walk/{}", t - 1), kind: "sl_timed_walk".into(), coq, outcome, tags,
+            input: json!({"sim": "speed_limit", "route": route_json(&route), "train": train_json(&train), "timed_path": timed.iter().map(|x| json!([x.link_idx.idx(), x.time.value])).collect::<Vec<_>>()}),
+            oracle_fail: fails, known: vec![], in_domain });
+        made += 1;
+    }
+}
+
 /// Trip-level outputs of a simulation made by TrainSimBuilder::make_speed_limit_train_sim(locations, save,
 /// simulation_days, scenario_year): the annualisation factor is 365.25 / simulation_days whatever the scenario year.
 fn builder_trip_cases(r: &mut Rng, n: usize, sink: &mut Sink) {
@@ -281,6 +350,7 @@ pub fn run(seed: u64, n: usize, sink: &mut Sink) {
     let n_full = n * 2 / 5;
     { let mut rf = r.fork(); full_cases(&mut rf, n_full, sink); }
     { let mut rf = r.fork(); full_walk_cases(&mut rf, (n / 120).max(3), 0, sink); }
+    { let mut rt = Rng::new(seed ^ 0xC11_71ED); timed_walk_cases(&mut rt, (n / 120).max(4), sink); }
     let n = n - n_full;
     let mut made = 0usize; let mut t = 0usize;
     while made < n {
